@@ -156,7 +156,7 @@ type CleanSpec struct {
 }
 
 // Fault: inject at the Nth (1-based) operation of kind Kind whose nominal path
-// ends in PathSuffix performed by call CallID (or any call when CallID < 0;
+// contains PathSuffix performed by call CallID (or any call when CallID < 0;
 // Exec < 0 = any execution).
 type Fault struct {
 	Kind       string `json:"kind"`
